@@ -66,6 +66,10 @@ CHECKS = {
    text="Every SIMDVector operation the library offers, for six element types and every ABI available under SSE2, AVX2 and AVX-512 (thorough: all six ISAs, C++17, -O3), is run on the real API on TLC-enumerated cases and every result is judged lane by lane by TLC against an explicit lane semantics (Simd.tla): lane-wise maps, folds, set/reverse order, memory frames for loads/stores at every offset including all masks (exhaustive up to 8 lanes) and guard pages. Integer lanes are decided on their full range with exact two's-complement limb arithmetic in TLA+ (Word.tla); float specials against the recorded scalar-operation table; small exact data by integer arithmetic. An L2 model of the remainder-mask pipeline (maska fill, array_to_mask, declared mask widths, mask_to_array, AVX2 maskload order, complex split_mask) is model-checked exhaustively to refine L1 and bound to the code by Meta events.",
    note="Bounded conformance checking, not a proof over all inputs: operand values are sampled (boundary cross-products, seeded random bit patterns; exhaustive unary 2^32 sweeps only in the thorough tier and only as a candidate filter whose candidates are judged by TLC). rcp/rsqrt are judged against an assumed 2^-11 bound (none is documented). The float table trusts the recorder's scalar C++ evaluation. Complex set() argument order is a listed known finding (D26).",
    technique="TLA+ lane semantics + limb arithmetic + L2 mask model checked by TLC + TLC trace validation"),
+ "C03": dict(level=MC, design="3/C03",
+   text="TLC computes the Einstein sum (Einsum!EinsteinSum / EinsteinSumOut: free labels by first appearance or in the explicit order, extents from the operands, exact sum over contracted labels including traces inside one operand) for every recorded call and compares the extents of the static result type and every element exactly, for einsum<I,J>, contraction<I,J>, einsum<I,J,OIndex>, einsum<I>(a) (+OIndex), inner and outer. The plan is the state space of GenEinsum: every pair pattern of operand ranks 1..3 (quick) or 1..4 (thorough) with no label more than twice, extents from {1,2,3,4,5,8,9} with distinct labels given distinct extents and the vectorised extent a multiple or non-multiple of the lane counts, two data draws, on SSE2/AVX2/AVX-512 and C++14/17 (thorough: all six ISAs, both standards, CONTRACT_OPT -1/1/2, five element types). An L2 model of the library's compile-time classifiers and back ends (EinsumDispatch) is checked by TLC to execute exactly the terms of the Einstein sum for every pattern of rank <= 3, and is bound to the code through the logged classifier values.",
+   note="Exact on integer-valued data only; rounding is not judged. Quick samples rank-4 patterns 1 in 30. CONTRACT_OPT -3/-2, strided_contraction<> and the Voigt overloads are not exercised. outer() with a Tensor<T,1> operand dropping the unit axis from its result type is a listed known finding (D29).",
+   technique="TLA+ L1 n-ary Einstein sum + L2 dispatch model checked by TLC + TLC-enumerated plan + TLC trace validation"),
 }
 NA_REASON = "check not built yet (work in progress in this session; see DESIGN.md section 3 for the planned model)"
 
